@@ -146,3 +146,46 @@ pub fn dense(p: &ProgramDef, rng: &mut Rng) -> Input {
    let rows = finish(rng, lat, rows);
    with_other_inputs(p, rng, e, rows)
 }
+
+/// eqrel workloads: most elements are introduced early (self pairs), a chain-shaped `f` makes
+/// congruence merges cascade one iteration at a time, so that late deltas *only merge* classes
+/// that are already known (no new element) -- the case the old/combined bookkeeping must get right
+pub fn eq_merge(p: &ProgramDef, rng: &mut Rng) -> Input {
+   let dom = rng.range(6, 12);
+   let mut res = small(p, rng);
+   let mut set = |name: &str, rows: Vec<Row>, res: &mut Input| {
+      if let Some(i) = p.rel_index(name) {
+         res.retain(|(j, _)| *j != i);
+         res.push((i, rows));
+      }
+   };
+   let mut pairs: Vec<Row> = vec![];
+   for x in 0..dom {
+      if rng.chance(700) {
+         pairs.push(vec![Val::I(x as i64), Val::I(x as i64)]);
+      }
+   }
+   for _ in 0..rng.range(1, 4) {
+      pairs.push(vec![Val::I(rng.below(dom) as i64), Val::I(rng.below(dom) as i64)]);
+   }
+   rng.shuffle(&mut pairs);
+   set("pair", pairs, &mut res);
+   let mut f: Vec<Row> = vec![];
+   let stride = rng.range(1, 2);
+   for x in 0..dom {
+      if rng.chance(850) {
+         f.push(vec![Val::I(x as i64), Val::I(((x + stride) % (dom + 1)) as i64)]);
+      }
+   }
+   for _ in 0..rng.below(3) {
+      f.push(vec![Val::I(rng.below(dom) as i64), Val::I(rng.below(dom) as i64)]);
+   }
+   rng.shuffle(&mut f);
+   set("f", f.clone(), &mut res);
+   set("link", f, &mut res);
+   let nodes: Vec<Row> = (0..dom).filter(|_| rng.chance(600)).map(|x| vec![Val::I(x as i64)]).collect();
+   set("node", nodes.clone(), &mut res);
+   set("start", nodes.into_iter().take(2).collect(), &mut res);
+   res.sort_by_key(|(i, _)| *i);
+   res
+}
